@@ -131,6 +131,7 @@ type upstream struct {
 	choose  func(b *bodyRec, rng *rand.Rand) []string
 	bad     []string // protocol-level problems noticed while serving
 	inflight atomic.Int64
+	hdr     string // canonical form of the dynamic header name
 }
 
 func resp(status int, req *http.Request) *http.Response {
@@ -172,7 +173,7 @@ func (u *upstream) RoundTrip(req *http.Request) (*http.Response, error) {
 	begin := u.r.Stamp()
 	raw, _ := io.ReadAll(req.Body)
 	_ = req.Body.Close()
-	sum := sha1.Sum(append([]byte(req.Header.Get("Tenant")+"\x00"), raw...))
+	sum := sha1.Sum(append([]byte(req.Header.Get(u.hdr)+"\x00"), raw...))
 	hash := fmt.Sprintf("%x", sum[:8])
 	now := time.Now()
 
@@ -180,14 +181,14 @@ func (u *upstream) RoundTrip(req *http.Request) (*http.Response, error) {
 	b, ok := u.bodies[hash]
 	if !ok {
 		b = &bodyRec{Hash: hash, Counters: map[string]int64{}, First: begin, firstAt: now}
-		_, b.HasHdr = req.Header["Tenant"]
-		b.Header = req.Header.Get("Tenant")
+		_, b.HasHdr = req.Header[u.hdr]
+		b.Header = req.Header.Get(u.hdr)
 		if req.URL.Path != "/v2/raw" || req.Method != "POST" {
 			u.note("unexpected request %s %s", req.Method, req.URL.Path)
 		}
 		for h := range req.Header {
 			switch h {
-			case "Content-Type", "User-Agent", "Content-Encoding", "Tenant", "Content-Length", "Accept-Encoding":
+			case "Content-Type", "User-Agent", "Content-Encoding", u.hdr, "Content-Length", "Accept-Encoding":
 			default:
 				u.note("unexpected request header %q", h)
 			}
@@ -302,6 +303,17 @@ type config struct {
 	Compress    bool   `json:"compress"`
 	PerDisp     int    `json:"dispatches_per_dispatcher"`
 	HoldSlot    bool   `json:"hold_slot_across_flush"`
+	// DynName is the configured dynamic header (= tag) name, "" = "tenant". FromConfig builds the forwarder
+	// from configuration text through NewHttpForwarderHandlerV2FromViper instead of from Go arguments.
+	DynName    string `json:"dynamic_header_name,omitempty"`
+	FromConfig bool   `json:"from_configuration_text,omitempty"`
+}
+
+func (c config) dynName() string {
+	if c.DynName == "" {
+		return "tenant"
+	}
+	return c.DynName
 }
 
 type dispatchRec struct {
@@ -312,6 +324,9 @@ type dispatchRec struct {
 }
 
 var tenants = []string{"", "a", "b", "c_d"}
+
+// dynNames are configured dynamic header names: the name is both the tag name to match and the header to set
+var dynNames = []string{"tenant", "Region", "x-Tenant-Id", "SERVICE", "tenant"}
 
 // buildMap lexes generated lines with the real lexer and folds them into a MetricMap like the parser does.
 func buildMap(lx *statsd.VerifLexer, rng *rand.Rand, cfg config, client int, idc *atomic.Int64, badUTF8 bool, tenantPool []string) (*gostatsd.MetricMap, *dispatchRec, error) {
@@ -330,13 +345,14 @@ func buildMap(lx *statsd.VerifLexer, rng *rand.Rand, cfg config, client int, idc
 			tenant, missing, forceID = missing[0], missing[1:], true
 		}
 		tags := []string{}
+		dn := cfg.dynName()
 		if tenant != "" {
-			tags = append(tags, "tenant:"+tenant)
+			tags = append(tags, dn+":"+tenant)
 		}
 		if rng.Intn(2) == 0 {
 			// "tenantx:9" / "tenant" share a prefix with the dynamic header name but must not select a header
 			// none of these may select a header: only a tag whose name is exactly "tenant" does
-			tags = append(tags, []string{"env:prod", "zone:x", "plain", "tenantx:9", "tenant", "subtenant:q", "x:tenant:y", "mytenant:z:1"}[rng.Intn(8)])
+			tags = append(tags, []string{"env:prod", "zone:x", "plain", dn + "x:9", dn, "sub" + dn + ":q", "x:" + dn + ":y", "my" + dn + ":z:1"}[rng.Intn(8)])
 		}
 		var line string
 		s := rng.Intn(3)
@@ -422,7 +438,7 @@ func newWorld(r *mon.Run, cfg config, choose func(b *bodyRec, rng *rand.Rand) []
 	logger.SetLevel(logrus.PanicLevel)
 	logger.SetOutput(io.Discard)
 	w := &world{r: r, cfg: cfg, spy: newSpy(), runDone: make(chan struct{}), stopWaiter: make(chan struct{})}
-	w.up = &upstream{r: r, bodies: map[string]*bodyRec{}, rng: r.Rand(fmt.Sprintf("exec%d-upstream", cfg.Exec)), choose: choose}
+	w.up = &upstream{r: r, bodies: map[string]*bodyRec{}, rng: r.Rand(fmt.Sprintf("exec%d-upstream", cfg.Exec)), choose: choose, hdr: http.CanonicalHeaderKey(cfg.dynName())}
 	pool := transport.NewTransportPool(logger, viper.New())
 	c, err := pool.Get("default")
 	if err != nil {
@@ -431,7 +447,7 @@ func newWorld(r *mon.Run, cfg config, choose func(b *bodyRec, rng *rand.Rand) []
 	c.Client.Transport = w.up
 	var dyn []string
 	if cfg.Dyn {
-		dyn = []string{"tenant"}
+		dyn = []string{cfg.dynName()}
 	}
 	window := time.Duration(cfg.WindowMS) * time.Millisecond
 	if cfg.WindowMS < 0 {
@@ -482,6 +498,30 @@ func newWorld(r *mon.Run, cfg config, choose func(b *bodyRec, rng *rand.Rand) []
 }
 
 func newForwarder(logger logrus.FieldLogger, cfg config, window time.Duration, dyn []string, pool *transport.TransportPool, fc statsd.VerifFlushCoordinator) (*statsd.HttpForwarderHandlerV2, error) {
+	if cfg.FromConfig {
+		// the documented keys of the http-transport section (README "Configuring HTTP servers / forwarder"),
+		// as configuration text: what the operator writes is what the forwarder must do
+		var sb strings.Builder
+		fmt.Fprintf(&sb, "[http-transport]\napi-endpoint = %q\nconsolidator-slots = %d\nmax-requests = %d\nconcurrent-merge = %d\ncompress = %v\ncompression-type = \"zlib\"\ncompression-level = 6\nflush-interval = \"1s\"\n",
+			"http://upstream.invalid", cfg.Slots, cfg.MaxRequests, cfg.Merge, cfg.Compress)
+		if window == -1 {
+			sb.WriteString("max-request-elapsed-time = -1\n")
+		} else {
+			fmt.Fprintf(&sb, "max-request-elapsed-time = %q\n", window.String())
+		}
+		if len(dyn) > 0 {
+			fmt.Fprintf(&sb, "dynamic-headers = [%q]\n", dyn[0])
+		}
+		v := viper.New()
+		v.SetConfigType("toml")
+		if err := v.ReadConfig(strings.NewReader(sb.String())); err != nil {
+			return nil, err
+		}
+		if fc == nil {
+			return statsd.NewHttpForwarderHandlerV2FromViper(logger, v, pool, nil)
+		}
+		return statsd.NewHttpForwarderHandlerV2FromViper(logger, v, pool, fc)
+	}
 	if fc == nil {
 		return statsd.NewHttpForwarderHandlerV2(logger, "default", "http://upstream.invalid", cfg.Slots, cfg.MaxRequests, cfg.Merge, cfg.Compress, "zlib", 6, window, time.Second, nil, dyn, pool, nil)
 	}
@@ -720,15 +760,15 @@ func finish(r *mon.Run, w *world, cfg config, recs [][]*dispatchRec, flushes []f
 			for _, s := range b.Series {
 				want, has := "", false
 				for _, t := range s.Tags {
-					if strings.HasPrefix(t, "tenant:") {
-						want, has = t[len("tenant:"):], true
+					if strings.HasPrefix(t, cfg.dynName()+":") {
+						want, has = t[len(cfg.dynName())+1:], true
 					}
 				}
 				if !cfg.Dyn {
 					has, want = false, ""
 				}
 				if has != b.HasHdr || want != b.Header {
-					viol("header-mismatch", fmt.Sprintf("series %s %q (tags %q) travelled in a request with header Tenant=%q present=%v", typeName(s.Type), s.Name, s.Tags, b.Header, b.HasHdr))
+					viol("header-mismatch", fmt.Sprintf("series %s %q (tags %q) travelled in a request with header %s=%q present=%v (configured dynamic header %q)", typeName(s.Type), s.Name, s.Tags, w.up.hdr, b.Header, b.HasHdr, cfg.dynName()))
 					break
 				}
 			}
@@ -826,7 +866,7 @@ func finish(r *mon.Run, w *world, cfg config, recs [][]*dispatchRec, flushes []f
 	}
 	r.Event("bodies_mixing_clients", multi)
 	if multi > 0 || overlap > 0 {
-		r.Nontrivial(fmt.Sprintf("%s d%d s%d r%d m%d dyn%v f%s w%d bad%v c%v retry%v mixed%v", cfg.Mode, cfg.Dispatchers, cfg.Slots, cfg.MaxRequests, cfg.Merge, cfg.Dyn, cfg.Faults, cfg.WindowMS, cfg.BadUTF8, cfg.Compress, overlap > 0, multi > 0))
+		r.Nontrivial(fmt.Sprintf("%s d%d s%d r%d m%d dyn%v%s f%s w%d bad%v c%v retry%v mixed%v text%v", cfg.Mode, cfg.Dispatchers, cfg.Slots, cfg.MaxRequests, cfg.Merge, cfg.Dyn, cfg.DynName, cfg.Faults, cfg.WindowMS, cfg.BadUTF8, cfg.Compress, overlap > 0, multi > 0, cfg.FromConfig))
 	}
 	if r.WantSample() {
 		var sample []map[string]interface{}
@@ -953,10 +993,10 @@ func runScripted(r *mon.Run, sc scriptedCase) {
 				w.cancel()
 				return
 			}
-			mm.Timers.Each(func(_, _ string, t gostatsd.Timer) { markTenants(t.Tags, tenantsSeen) })
-			mm.Sets.Each(func(_, _ string, s gostatsd.Set) { markTenants(s.Tags, tenantsSeen) })
-			mm.Counters.Each(func(_, _ string, c gostatsd.Counter) { markTenants(c.Tags, tenantsSeen) })
-			mm.Gauges.Each(func(_, _ string, g gostatsd.Gauge) { markTenants(g.Tags, tenantsSeen) })
+			mm.Timers.Each(func(_, _ string, t gostatsd.Timer) { markTenants(cfg.dynName(), t.Tags, tenantsSeen) })
+			mm.Sets.Each(func(_, _ string, s gostatsd.Set) { markTenants(cfg.dynName(), s.Tags, tenantsSeen) })
+			mm.Counters.Each(func(_, _ string, c gostatsd.Counter) { markTenants(cfg.dynName(), c.Tags, tenantsSeen) })
+			mm.Gauges.Each(func(_, _ string, g gostatsd.Gauge) { markTenants(cfg.dynName(), g.Tags, tenantsSeen) })
 			w.hfh.DispatchMetricMap(w.ctx, mm)
 			rec.returned = r.Stamp()
 			recs = append(recs, rec)
@@ -1099,10 +1139,10 @@ func runScripted(r *mon.Run, sc scriptedCase) {
 	finish(r, w, cfg, [][]*dispatchRec{recs}, nil)
 }
 
-func markTenants(tags gostatsd.Tags, seen map[string]bool) {
+func markTenants(dn string, tags gostatsd.Tags, seen map[string]bool) {
 	for _, t := range tags {
-		if strings.HasPrefix(t, "tenant:") {
-			seen[t[len("tenant:"):]] = true
+		if strings.HasPrefix(t, dn+":") {
+			seen[t[len(dn)+1:]] = true
 			return
 		}
 	}
@@ -1117,7 +1157,10 @@ func TestCheck(t *testing.T) {
 	r.Assume("retry back-off runs on the real clock (the forwarder posts with context.Background()); only its logical consequences are judged, plus 'abandoned no earlier than the window' on an upper bound of the elapsed time")
 	if p := r.ReplayPayload(); p != nil {
 		var sc scriptedCase
-		if mon.ReplayCase(p, &sc) != nil && sc.Config.Mode == "scripted" {
+		var lc lambdaCase
+		if mon.ReplayCase(p, &lc) != nil && lc.Lambda {
+			runLambdaCase(r, lc)
+		} else if mon.ReplayCase(p, &sc) != nil && sc.Config.Mode == "scripted" {
 			runScripted(r, sc)
 		} else {
 			var wrap struct {
@@ -1147,6 +1190,10 @@ func TestCheck(t *testing.T) {
 		cfg.Mode = []string{"manual", "timer"}[rng.Intn(2)]
 		cfg.Dyn = rng.Intn(3) == 0
 		cfg.BadUTF8 = rng.Intn(2) == 0
+		cfg.FromConfig = rng.Intn(2) == 0
+		if cfg.Dyn {
+			cfg.DynName = dynNames[rng.Intn(len(dynNames))]
+		}
 		if i%6 == 5 { // faulty upstream: keep it short, back-off is real time
 			cfg.Faults = "random"
 			cfg.PerDisp = 5 + rng.Intn(10)
@@ -1191,6 +1238,15 @@ func TestCheck(t *testing.T) {
 		runScripted(r, sc)
 	}
 	r.Extra("scripted_cases_total", len(cases)/maxInt(1, shardsOf(r)))
+
+	// (3) the forwarder as cmd/lambda-extension composes it with timer-driven flushing (real executable)
+	nLambda := r.Pick(4, 64)
+	for k := 0; k < nLambda; k++ {
+		if !r.Mine(k) {
+			continue
+		}
+		runLambdaCase(r, lambdaCase{Exec: 800000 + k, Lambda: true, IntervalMS: []int{50, 20, 120, 75}[k%4], Rounds: 3 + k%6, PerRound: 1 + (k*7)%40, Slots: 1 + k%4, Compress: k%2 == 1})
+	}
 }
 
 func shardsOf(r *mon.Run) int { _, n := r.Shard(); return n }
